@@ -39,7 +39,7 @@ fn type_call(rng: &mut Rng) -> Option<BOp> {
         return None;
     }
     // few distinct (method, seed) pairs => the same request is repeated within a run
-    let simple = ["type_void", "type_bool", "type_int", "type_float", "type_vector", "type_pointer", "type_sampler", "type_void_id", "type_int_id", "type_pointer"];
+    let simple = ["type_void", "type_bool", "type_int", "type_float", "type_vector", "type_pointer", "type_sampler", "type_void_id", "type_int_id", "type_pointer", "type_struct", "type_struct", "type_array", "type_array", "type_function", "type_struct_id"];
     let name = if rng.chance(2, 3) {
         let n = *rng.pick(&simple);
         if bs.by_name.contains_key(n) {
@@ -52,7 +52,7 @@ fn type_call(rng: &mut Rng) -> Option<BOp> {
     };
     Some(BOp::Call {
         method: name,
-        arg_seed: rng.below(3),
+        arg_seed: rng.below(7),
         explicit_rid: rng.chance(1, 4),
         ip_kind: 0,
         ip_k: 0,
@@ -98,7 +98,15 @@ impl Property for C13 {
                     },
                     _ => BOp::Id,
                 },
-                9..=10 => gen_call(rng, MClass::ModuleLevel).unwrap_or(BOp::Id),
+                9 => gen_call(rng, MClass::ModuleLevel).unwrap_or(BOp::Id),
+                10 => BOp::Call {
+                    // module-level calls that relate to types: decorations, constants, forward pointers
+                    method: rng.pick(&["decorate", "decorate", "constant_bit32", "constant_bit32", "type_forward_pointer", "member_decorate"]).to_string(),
+                    arg_seed: rng.next(),
+                    explicit_rid: false,
+                    ip_kind: 0,
+                    ip_k: 0,
+                },
                 11 => BOp::BeginFunction { explicit_id: rng.chance(1, 3), control: 0 },
                 12 => {
                     if rng.chance(1, 3) {
